@@ -177,7 +177,17 @@ func init() {
 	}
 	handlers[11] = func(k *kase) tokens {
 		var t tokens
-		t.bytes(bgp.VerifPrependHeader(k.b(0), uint8(k.i(0))))
+		// the frame is handed to conn.Write while other goroutines encode their own messages and the caller reuses its
+		// body buffer: it must not share storage with a later encoding or with the body it was built from
+		in := append([]byte(nil), k.b(0)...)
+		first := bgp.VerifPrependHeader(in, uint8(k.i(0)))
+		_ = bgp.VerifPrependHeader(nil, uint8(k.i(0))^7)
+		_ = bgp.VerifPrependHeader([]byte{0xEE}, 4)
+		_ = bgp.VerifPrependHeader(in, 1)
+		for i := range in {
+			in[i] ^= 0xFF
+		}
+		t.bytes(first)
 		return t
 	}
 }
